@@ -267,8 +267,11 @@ def r2_history_index_is_state_index(ctx, rid):
                     return False
                 nm = v
             return False
+        def table_of(r):
+            # the subscripted table, through stable local aliases (`indices = self._state_var_indices`)
+            return normalise(ctx, f, r.value) if isinstance(r.value, ast.Name) else r.value
         ok_idx = bool(roots) and all(
-            r is not None and isinstance(r, ast.Subscript) and is_attr_of(r.value, selfn, "_state_var_indices")
+            r is not None and isinstance(r, ast.Subscript) and is_attr_of(table_of(r), selfn, "_state_var_indices")
             and is_loop_var(r.slice) and contains(outer, r) for r in roots)
     # a (start, stop) range may be narrowed to its start only when it holds ONE entry: the narrowing statement `idx = idx[0]` must
     # be guarded by stop - start <= 1 (the generated look-up `hist(..)[start]` of a wider range reads one unit for all of them)
@@ -575,8 +578,11 @@ def r6_supplied_history_wins(ctx, rid):
     if bad:
         return
     # recognised presence forms: membership test on the key, or `is None` / `is not None` on the looked-up value
+    # ... or an identity test against the default of the look-up (`pop('hist', _MISSING)` ... `is _MISSING`)
+    sentinels = {ast.unparse(c.args[1]) for c in lookups if len(c.args) == 2 and isinstance(c.args[1], (ast.Name, ast.Attribute))}
     is_none = [n for n in walk_shallow(f.node) if isinstance(n, ast.Compare) and len(n.ops) == 1 and isinstance(n.ops[0], (ast.Is, ast.IsNot))
-               and isinstance(n.comparators[0], ast.Constant) and n.comparators[0].value is None]
+               and ((isinstance(n.comparators[0], ast.Constant) and n.comparators[0].value is None)
+                    or ast.unparse(n.comparators[0]) in sentinels)]
     guarded = []
     for d in defaults:
         for a in _anc(d):
